@@ -138,11 +138,16 @@ def sigV2 : Bytes := [13, 10, 13, 10, 0, 13, 10, 81, 85, 73, 84, 10]
 
 def be16 (a b : Byte) : Nat := a.toNat * 256 + b.toNat
 
+/-- Decimal digits of a byte value (as `inet_ntop` prints an octet). -/
+def dec3 (x : Byte) : Bytes :=
+  let n := x.toNat
+  if n < 10 then [UInt8.ofNat (48 + n)]
+  else if n < 100 then [UInt8.ofNat (48 + n / 10), UInt8.ofNat (48 + n % 10)]
+  else [UInt8.ofNat (48 + n / 100), UInt8.ofNat (48 + n / 10 % 10), UInt8.ofNat (48 + n % 10)]
+
 def dotted (a : Bytes) : Bytes :=
   match a with
-  | [x0, x1, x2, x3] =>
-    let d := fun (x : Byte) => (toString x.toNat).toUTF8.toList
-    d x0 ++ [46] ++ d x1 ++ [46] ++ d x2 ++ [46] ++ d x3
+  | [x0, x1, x2, x3] => dec3 x0 ++ [46] ++ dec3 x1 ++ [46] ++ dec3 x2 ++ [46] ++ dec3 x3
   | _ => []
 
 def rstripNul (b : Bytes) : Bytes := (b.reverse.dropWhile (· == 0)).reverse
